@@ -9,6 +9,7 @@ import (
 	"os/exec"
 	"path/filepath"
 	"runtime"
+	"runtime/debug"
 	"strings"
 	"sync"
 	"time"
@@ -36,6 +37,9 @@ var Workers = map[string]WorkerFunc{}
 
 // WorkerMain is the entry point of `vcheck worker <name> <in> <out>`.
 func WorkerMain(name, in, out string) int {
+	// Cases are a few hundred bytes; a goroutine stack beyond 128 MB on them is runaway recursion.
+	// The lower limit only makes that crash arrive in milliseconds instead of after a gigabyte.
+	debug.SetMaxStack(128 << 20)
 	fn, ok := Workers[name]
 	if !ok {
 		fmt.Fprintln(os.Stderr, "unknown worker", name)
